@@ -507,9 +507,43 @@ struct Case {
     ops: Vec<Op>,
 }
 
+/// the workbook of a case, a function of its generator seed: mostly `gen_book_rich`; one in 40 has sheets whose names
+/// differ by a digit suffix ("Q", "Q1", "Q12" — keys built by gluing a name and a number collide), one in 40 has a
+/// BIG sheet (4112 cells, first row 3) next to a small one (size-dependent caches)
+fn the_book(gen_seed: u64, fmt: Fmt) -> wb::LBook {
+    let mut rng = Rng::new(gen_seed);
+    match gen_seed % 40 {
+        7 => {
+            let mut b = wb::LBook::default();
+            for name in ["Q", "Q1", "Q12"] {
+                b.sheets.push(wb::gen_sheet_at(&mut rng, name, 40, (0, 0, 30, 3)));
+                // make sure the rows used by the directed history hold something
+                let k = b.sheets.len() as f64;
+                for r in [1u32, 2, 11, 12, 21, 22] {
+                    b.sheets.last_mut().unwrap().cells.insert((r, 0), wb::V::Num(k * 100.0 + r as f64 + 0.5));
+                }
+            }
+            b
+        }
+        9 => {
+            let mut b = wb::LBook::default();
+            let mut big = wb::LSheet { name: "Big".into(), ..Default::default() };
+            for r in 3..1031u32 {
+                for c in 0..4u32 {
+                    big.cells.insert((r, c), if (r + c) % 3 == 0 { wb::V::Str(format!("s{}", r % 7)) } else { wb::V::Num(r as f64 + 0.25) });
+                }
+            }
+            b.sheets.push(big);
+            b.sheets.push(wb::gen_sheet_at(&mut rng, "Small", 10, (3, 0, 6, 3)));
+            b
+        }
+        _ => wb::gen_book_rich(&mut rng, fmt, 3, 25),
+    }
+}
+
 fn gen_case(rng: &mut Rng, fmt: Fmt) -> Case {
     let gen_seed = rng.next();
-    let book = wb::gen_book_rich(&mut Rng::new(gen_seed), fmt, 3, 25);
+    let book = the_book(gen_seed, fmt);
     let names: Vec<String> = book.sheets.iter().map(|s| s.name.clone()).collect();
     let rows: Vec<u32> = book.sheets.iter().flat_map(|s| s.cells.keys().map(|k| k.0)).collect();
     let mut pick_name = |rng: &mut Rng| -> String {
@@ -531,6 +565,25 @@ fn gen_case(rng: &mut Rng, fmt: Fmt) -> Case {
     };
     let n = rng.range(3, 25);
     let mut ops = vec![];
+    match gen_seed % 40 {
+        7 => {
+            // (name, header row) pairs whose glued text coincides: ("Q", 12) / ("Q1", 2), ("Q1", 21) / ("Q12", 1) …
+            for (a, na, b2, nb) in [("Q", 12u32, "Q1", 2u32), ("Q1", 21, "Q12", 1), ("Q", 11, "Q1", 1), ("Q", 122, "Q12", 2)] {
+                if rng.chance(2, 3) {
+                    ops.extend([Op::H(Some(na)), Op::R(a.into()), Op::H(Some(nb)), Op::R(b2.into()), Op::H(Some(na)), Op::R(a.into())]);
+                }
+            }
+        }
+        9 => {
+            // the big sheet through worksheets() and by name under the default option and under Row(0) / Row(3)
+            for h in [None, Some(0u32), Some(3), None, Some(0)] {
+                ops.push(Op::H(h));
+                ops.push(if rng.chance(1, 2) { Op::W } else { Op::R("Big".into()) });
+                ops.push(if rng.chance(1, 2) { Op::R("Big".into()) } else { Op::RR("Big".into()) });
+            }
+        }
+        _ => {}
+    }
     let table_names: Vec<String> = book.sheets.iter().flat_map(|s| s.tables.iter().map(|t| t.name.clone())).collect();
     let has_merges = book.sheets.iter().any(|s| !s.merges.is_empty());
     for _ in 0..n {
@@ -624,7 +677,7 @@ impl Case {
 fn run_case(case: &Case, drv: &mut Driver, rep: &mut Report) -> Vec<(String, String, String, String, String)> {
     let mut fails = vec![];
     let fmt = case.fmt;
-    let book = wb::gen_book_rich(&mut Rng::new(case.gen_seed), fmt, 3, 25);
+    let book = the_book(case.gen_seed, fmt);
     let mut bytes = wb::write(&book, fmt, &mut Rng::new(case.seed));
     // container variants the format readers accept and auto-detection therefore has to accept as well: a zip
     // archive behind leading bytes (a self-extracting stub, a mail header). Only kept when the format's own reader
